@@ -43,11 +43,7 @@ func loopBlocksOfRange(r *ssa.Range) (header *ssa.BasicBlock, blocks map[*ssa.Ba
 	if header == nil {
 		return
 	}
-	for _, b := range r.Parent().Blocks {
-		if header.Dominates(b) && (b == header || reachesWithin(b, header, header) || hasBackEdgeTo(b, header)) {
-			blocks[b] = true
-		}
-	}
+	blocks = naturalLoop(header)
 	return
 }
 
@@ -90,12 +86,7 @@ func findListOrderSinks(fn *ssa.Function) []MapOrderSink {
 				continue
 			}
 			seen[h] = true
-			blocks := map[*ssa.BasicBlock]bool{}
-			for _, x := range fn.Blocks {
-				if h.Dominates(x) && (x == h || reachesWithin(x, h, h) || hasBackEdgeTo(x, h)) {
-					blocks[x] = true
-				}
-			}
+			blocks := naturalLoop(h)
 			out = append(out, orderSinksInLoop(fn, nil, blocks)...)
 		}
 	}
